@@ -283,7 +283,7 @@ Fixpoint hread (p : pst) (r : hreq) (total : N) (chunks : list bytes) : conn_out
   | [] => CNeedMore
   | c :: cs =>
       let total' := total + N.of_nat (length c) in
-      match hloop (S (length c)) p (mkdev c 0 []) r with
+      match hloop (length c + 2) p (mkdev c 0 []) r with
       | HOutOfFuel => COutOfFuel
       | HError => CError
       | HDone d r' => CDone r' (skipn (ptr d) (buf d)) cs
